@@ -57,3 +57,7 @@ func itoa(i int) string {
 	}
 	return s
 }
+
+func (h *effHooks) Deref(in *Interp, x *ast.StarExpr, base Val, st *State) {
+	st.emit(&Sym{Kind: "deref", Arg: base, Pos: x.Pos(), Extra: exprString(x)})
+}
